@@ -44,7 +44,10 @@ func HarnessC13Binding() {
 		if j > 0 {
 			call += ", "
 		}
-		switch verifChoice(3) {
+		switch verifChoice(4) {
+		case 3: // an argument that evaluates to nil is still bound (to the empty value), it does not fall back to the default
+			args[j] = ""
+			call += "nothing"
 		case 0:
 			args[j] = c13Letter()
 			ctx["a"+itoa(j)] = args[j]
